@@ -15,7 +15,13 @@ PREFIX = {p: p + "_" for p in ("C05", "C06", "C07", "C08", "C12", "C13", "C14", 
 def scenarios(pid, tier, seed):
     big = tier == "thorough"
     if pid == "C13":
-        return api_scen.fam_pipelines(seed, big)
+        base = api_scen.fam_pipelines(seed, big)
+        # the same with standard descriptors of the parent closed: the files given for the pipeline's input, output and
+        # error sink (and the connecting pipes) land on the numbers 0-2
+        pick = [x for x in base if x["term"] in ("join", "popen", "capture") and x["stdin"] in ("file", "null", "data")
+                and x["stdout"] in ("file", "pipe", "null") and x["stderr"] in ("file", "capture")][:(24 if big else 12)]
+        closed = [dict(x, id=x["id"] + "-closed", closed_std=c) for x, c in zip(pick, [[0], [1], [1, 2], [0, 1, 2]] * 6)]
+        return base + closed
     if pid == "C14":
         return api_scen.fam_pipeline_fail(seed, big)
     if pid == "C12":
